@@ -1,6 +1,6 @@
 (* Proofs for property C14, part 1: bytes and bit fields, the `info` reply, the P2P table,
    get_system_info. *)
-From Coq Require Import ZArith String Ascii List Bool Lia.
+From Coq Require Import ZArith String Ascii List Bool Lia FinFun.
 Require Import Rig.Generated.GenProbe Rig.Model.Base Rig.Model.Probe Rig.Spec.Probe.
 Import ListNotations.
 Open Scope Z_scope.
@@ -186,7 +186,7 @@ Definition a1 (cs : chip_state) : Z := r_arg1 (encode_info cs).
     unfold ci_local_ethernet_chip, is_byte in *. change 255 with (Z.ones 8).
     rewrite !land_ones_mod by lia. rewrite !Z.shiftr_div_pow2 by lia.
     change (2 ^ 8) with 256. change (2 ^ 0) with 1.
-    destruct (cs_eth cs) as [ex ey]; simpl in *. f_equal; lia.
+    destruct (cs_eth cs) as [ex ey]; cbn [fst snd] in *. rewrite Z.div_1_r. f_equal; lia.
   Qed.
 
   Lemma rt_ip : forall d18 i0 i1 i2 i3,
@@ -197,7 +197,7 @@ Definition a1 (cs : chip_state) : Z := r_arg1 (encode_info cs).
     unfold ci_ip_shifts, ci_ip_byte. cbn [map le_decode]. change 255 with (Z.ones 8).
     rewrite !land_ones_mod by lia. rewrite !Z.shiftr_div_pow2 by lia.
     change (2 ^ 8) with 256. change (2 ^ 0) with 1. change (2 ^ 16) with 65536. change (2 ^ 24) with 16777216.
-    repeat (f_equal; [lia|]). reflexivity.
+    rewrite Z.div_1_r. repeat (f_equal; [lia|]). f_equal. lia.
   Qed.
 
   Theorem chip_info_roundtrip : forall cs, cs_valid cs -> decode_info (encode_info cs) = Ok (truth_info cs).
@@ -230,6 +230,405 @@ Definition a1 (cs : chip_state) : Z := r_arg1 (encode_info cs).
       destruct (cs_ip cs) as [|i0 [|i1 [|i2 [|i3 [|]]]]] eqn:E; try discriminate.
       inversion Hip as [|? ? B0 Hip1]; subst. inversion Hip1 as [|? ? B1 Hip2]; subst.
       inversion Hip2 as [|? ? B2 Hip3]; subst. inversion Hip3 as [|? ? B3 _]; subst.
-      rewrite <- (rt_ip (256 * fst (cs_eth cs) + snd (cs_eth cs)) i0 i1 i2 i3) at 2 by assumption.
-      rewrite map_map. reflexivity.
+      f_equal.
+      transitivity (map dec_string (map (fun i => ci_ip_byte (256 * fst (cs_eth cs) + snd (cs_eth cs))
+                                                            (le_decode [i0; i1; i2; i3]) i) ci_ip_shifts)).
+      + rewrite map_map. reflexivity.
+      + rewrite rt_ip by assumption. reflexivity.
   Qed.
+
+(* ------------------------------------------------------------------------------------------------ *)
+(* ranges                                                                                            *)
+
+Lemma In_zrange : forall n e, In e (zrange n) <-> 0 <= e < n.
+Proof.
+  intros n e. unfold zrange. rewrite in_map_iff. split.
+  - intros (k & <- & Hk). apply in_seq in Hk. lia.
+  - intros H. exists (Z.to_nat e). split; [lia|]. apply in_seq. lia.
+Qed.
+
+Lemma zrange_length : forall n, length (zrange n) = Z.to_nat n.
+Proof. intros. unfold zrange. rewrite map_length, seq_length. reflexivity. Qed.
+
+Lemma seq_shift_Z : forall n k j,
+  map Z.of_nat (seq (k + j) n) = map (Z.add (Z.of_nat k)) (map Z.of_nat (seq j n)).
+Proof.
+  induction n as [|n IH]; intros k j; simpl; auto.
+  f_equal; [lia|]. replace (S (k + j)) with (k + S j)%nat by lia. apply IH.
+Qed.
+
+Lemma zrange_app : forall a b, 0 <= a -> 0 <= b ->
+  zrange (a + b) = zrange a ++ map (Z.add a) (zrange b).
+Proof.
+  intros a b Ha Hb. unfold zrange. rewrite Z2Nat.inj_add by lia.
+  rewrite seq_app, map_app. f_equal.
+  replace (0 + Z.to_nat a)%nat with (Z.to_nat a + 0)%nat by lia.
+  rewrite seq_shift_Z. rewrite Z2Nat.id by lia. reflexivity.
+Qed.
+
+Lemma zrange_nil : forall n, n <= 0 -> zrange n = [].
+Proof. intros. unfold zrange. replace (Z.to_nat n) with 0%nat by lia. reflexivity. Qed.
+
+(* ------------------------------------------------------------------------------------------------ *)
+(* the P2P table                                                                                     *)
+
+Lemma p2p_values_members : forall v, 0 <= v < 8 -> zmem v p2p_entry_values = true.
+Proof.
+  intros v Hv.
+  assert (H : v = 0 \/ v = 1 \/ v = 2 \/ v = 3 \/ v = 4 \/ v = 5 \/ v = 6 \/ v = 7) by lia.
+  repeat (destruct H as [->|H]; [reflexivity|]). subst. reflexivity.
+Qed.
+
+Lemma unpack_word : forall b0 b1 b2 b3,
+  unpack_ints p2p_word_format [b0; b1; b2; b3] = Some [le_decode [b0; b1; b2; b3]].
+Proof. reflexivity. Qed.
+
+(* eight three-bit digits *)
+Lemma digits_extract : forall r0 r1 r2 r3 r4 r5 r6 r7 e,
+  0 <= r0 < 8 -> 0 <= r1 < 8 -> 0 <= r2 < 8 -> 0 <= r3 < 8 ->
+  0 <= r4 < 8 -> 0 <= r5 < 8 -> 0 <= r6 < 8 -> 0 <= r7 < 8 ->
+  0 <= e < 8 ->
+  p2p_entry (r0 + 8 * (r1 + 8 * (r2 + 8 * (r3 + 8 * (r4 + 8 * (r5 + 8 * (r6 + 8 * (r7 + 8 * 0)))))))) e
+  = nth (Z.to_nat e) [r0; r1; r2; r3; r4; r5; r6; r7] 0.
+Proof.
+  intros r0 r1 r2 r3 r4 r5 r6 r7 e H0 H1 H2 H3 H4 H5 H6 H7 He.
+  unfold p2p_entry. change 7 with (Z.ones 3). rewrite land_ones_mod by lia.
+  rewrite Z.shiftr_div_pow2 by lia. change (2 ^ 3) with 8.
+  assert (H : e = 0 \/ e = 1 \/ e = 2 \/ e = 3 \/ e = 4 \/ e = 5 \/ e = 6 \/ e = 7) by lia.
+  destruct H as [->|[->|[->|[->|[->|[->|[->| ->]]]]]]];
+    match goal with |- context [2 ^ (3 * ?k)] => let v := eval compute in (2 ^ (3 * k)) in change (2 ^ (3 * k)) with v end;
+    cbv [nth Z.to_nat Pos.to_nat Pos.iter_op Init.Nat.add]; lia.
+Qed.
+
+Lemma p2p_word_unfold : forall route i,
+  p2p_word route i =
+  route (chip_of_index (8 * i + 0)) + 8 * (route (chip_of_index (8 * i + 1)) + 8 * (route (chip_of_index (8 * i + 2)) + 8 * (
+  route (chip_of_index (8 * i + 3)) + 8 * (route (chip_of_index (8 * i + 4)) + 8 * (route (chip_of_index (8 * i + 5)) + 8 * (
+  route (chip_of_index (8 * i + 6)) + 8 * (route (chip_of_index (8 * i + 7)) + 8 * 0))))))).
+Proof. reflexivity. Qed.
+
+Lemma p2p_word_entry : forall route i e, routes_valid route -> 0 <= e < 8 ->
+  p2p_entry (p2p_word route i) e = route (chip_of_index (8 * i + e)).
+Proof.
+  intros route i e Hr He. rewrite p2p_word_unfold.
+  rewrite digits_extract by (auto; apply Hr).
+  assert (H : e = 0 \/ e = 1 \/ e = 2 \/ e = 3 \/ e = 4 \/ e = 5 \/ e = 6 \/ e = 7) by lia.
+  destruct H as [->|[->|[->|[->|[->|[->|[->| ->]]]]]]]; reflexivity.
+Qed.
+
+Lemma p2p_word_bound : forall route i, routes_valid route -> 0 <= p2p_word route i < 16777216.
+Proof.
+  intros route i Hr. rewrite p2p_word_unfold.
+  pose proof (Hr (chip_of_index (8 * i + 0))). pose proof (Hr (chip_of_index (8 * i + 1))).
+  pose proof (Hr (chip_of_index (8 * i + 2))). pose proof (Hr (chip_of_index (8 * i + 3))).
+  pose proof (Hr (chip_of_index (8 * i + 4))). pose proof (Hr (chip_of_index (8 * i + 5))).
+  pose proof (Hr (chip_of_index (8 * i + 6))). pose proof (Hr (chip_of_index (8 * i + 7))).
+  lia.
+Qed.
+
+Lemma word_bytes : forall W, 0 <= W < 4294967296 ->
+  le_decode [(W / 256 ^ 0) mod 256; (W / 256 ^ 1) mod 256; (W / 256 ^ 2) mod 256; (W / 256 ^ 3) mod 256] = W.
+Proof.
+  intros W HW. cbn [le_decode]. change (256 ^ 0) with 1. change (256 ^ 1) with 256.
+  change (256 ^ 2) with 65536. change (256 ^ 3) with 16777216. rewrite Z.div_1_r. lia.
+Qed.
+
+(* the four bytes of word i, read at byte offset 4 i *)
+Lemma p2p_bytes_of_word : forall route i j, 0 <= i -> 0 <= j < 4 ->
+  p2p_byte route (4 * i + j) = (p2p_word route i / 256 ^ j) mod 256.
+Proof.
+  intros route i j Hi Hj. unfold p2p_byte.
+  replace ((4 * i + j) / 4) with i by lia. replace ((4 * i + j) mod 4) with j by lia. reflexivity.
+Qed.
+
+Lemma firstn_map_zrange4 : forall (f : Z -> Z) m, 4 <= m ->
+  firstn 4 (map f (zrange m)) = [f 0; f 1; f 2; f 3] /\
+  skipn 4 (map f (zrange m)) = map (fun j => f (4 + j)) (zrange (m - 4)).
+Proof.
+  intros f m Hm. replace m with (4 + (m - 4)) at 1 2 by lia.
+  rewrite zrange_app by lia. rewrite map_app. change (zrange 4) with [0; 1; 2; 3].
+  cbn [map app firstn skipn]. split; [reflexivity|]. rewrite map_map. reflexivity.
+Qed.
+
+Definition column_truth (route : chip -> Z) (col row n : Z) : list (chip * Z) :=
+  map (fun y => ((col, y), route (col, y))) (map (Z.add row) (zrange n)).
+
+Lemma column_truth_app : forall route col row a b, 0 <= a -> 0 <= b ->
+  column_truth route col row (a + b) = column_truth route col row a ++ column_truth route col (row + a) b.
+Proof.
+  intros. unfold column_truth. rewrite zrange_app by lia. rewrite !map_app. f_equal.
+  rewrite !map_map. apply map_ext. intros y. replace (row + (a + y)) with (row + a + y) by lia. reflexivity.
+Qed.
+
+Lemma p2p_column_ok : forall route h, routes_valid route -> 0 <= h < 256 ->
+  forall fuel col row raw,
+  h - row <= 8 * Z.of_nat fuel -> 0 <= row <= h -> 0 <= col < 256 ->
+  (row < h -> row mod 8 = 0 /\
+              raw = map (fun j => p2p_byte route (128 * col + row / 2 + j)) (zrange (4 * ((h - row + 7) / 8)))) ->
+  p2p_column fuel col row h raw = Ok (column_truth route col row (h - row)).
+Proof.
+  intros route h Hr Hh. induction fuel as [|fuel IH]; intros col row raw Hfuel Hrow Hcol Hraw.
+  - assert (row = h) by lia. subst. unfold p2p_column. rewrite Z.ltb_irrefl.
+    unfold column_truth. rewrite zrange_nil by lia. reflexivity.
+  - cbn [p2p_column]. destruct (row <? h) eqn:Elt.
+    2:{ apply Z.ltb_ge in Elt. assert (row = h) by lia. subst.
+        unfold column_truth. rewrite zrange_nil by lia. reflexivity. }
+    apply Z.ltb_lt in Elt. destruct (Hraw Elt) as [Hmod ->].
+    set (i := 32 * col + row / 8).
+    assert (Hoff : forall j, 128 * col + row / 2 + j = 4 * i + j) by (intros; unfold i; lia).
+    assert (Hm : 4 <= 4 * ((h - row + 7) / 8)) by lia.
+    destruct (firstn_map_zrange4 (fun j => p2p_byte route (128 * col + row / 2 + j)) _ Hm) as [Hf Hs].
+    unfold slice. change (Z.to_nat (p2p_word_bytes - 0)) with 4%nat. change (Z.to_nat 0) with 0%nat.
+    change (Z.to_nat p2p_word_bytes) with 4%nat. rewrite skipn_O. rewrite Hf, Hs. clear Hf Hs.
+    rewrite !Hoff. rewrite !p2p_bytes_of_word by (unfold i; lia).
+    rewrite unpack_word.
+    pose proof (p2p_word_bound route i Hr) as HW.
+    rewrite word_bytes by lia.
+    set (n := p2p_entries_in_word h row).
+    assert (Hn : n = Z.min 8 (h - row)) by reflexivity.
+    assert (Hes : map (fun e => ((col, row + e), p2p_entry (p2p_word route i) e)) (zrange n)
+                  = column_truth route col row n).
+    { unfold column_truth. rewrite map_map. apply map_ext_in. intros e He. apply In_zrange in He.
+      rewrite p2p_word_entry by (auto; lia).
+      replace (chip_of_index (8 * i + e)) with (col, row + e); [reflexivity|].
+      unfold chip_of_index, i. f_equal; lia. }
+    rewrite Hes.
+    match goal with |- context [forallb ?f (column_truth route col row n)] =>
+      assert (Hall : forallb f (column_truth route col row n) = true) end.
+    { apply forallb_forall. intros ce Hin. unfold column_truth in Hin. apply in_map_iff in Hin.
+      destruct Hin as (y & <- & _). cbn [snd]. apply p2p_values_members. apply Hr. }
+    rewrite Hall.
+    rewrite (IH col (row + n) _).
+    + cbn [bind]. replace (h - row) with (n + (h - row - n)) by lia.
+      rewrite column_truth_app by lia. replace (h - (row + n)) with (h - row - n) by lia. reflexivity.
+    + lia.
+    + lia.
+    + lia.
+    + intros Hlt. assert (n = 8) by lia. split; [lia|].
+      replace (4 * ((h - row + 7) / 8) - 4) with (4 * ((h - (row + n) + 7) / 8)) by lia.
+      apply map_ext. intros j. f_equal. lia.
+Qed.
+
+Lemma read_dims_ok : forall rd w h, 0 <= w < 256 -> 0 <= h < 256 -> reads_dims rd w h ->
+  read_sv_int rd sv_p2p_dims = Ok (256 * w + h).
+Proof.
+  intros rd w h Hw Hh Hrd. unfold read_sv_int, read_int_field, sv_p2p_dims. cbv beta iota zeta.
+  change (("<" ++ String.concat "" (repeat "H" (Z.to_nat 1)))%string) with "<H"%string.
+  change (calcsize "<H") with (Some 2). cbv beta iota.
+  change (sv_base + 2) with (SV_BASE + SV_P2P_DIMS). unfold reads_dims in Hrd. rewrite Hrd.
+  change (unpack "<H" (le_encode 2 (256 * w + h))) with (Some [UInt (le_decode (le_encode 2 (256 * w + h)))]).
+  cbv beta iota.
+  rewrite le_decode_encode by (change (256 ^ Z.of_nat 2) with 65536; lia).
+  reflexivity.
+Qed.
+
+Lemma p2p_columns_ok : forall rd route w h, routes_valid route -> 0 <= w < 256 -> 0 <= h < 256 ->
+  reads_p2p rd route ->
+  forall cols, (forall c, In c cols -> 0 <= c < w) ->
+  p2p_columns rd h (p2p_col_words h) cols =
+  Ok (flat_map (fun x => map (fun y => ((x, y), route (x, y))) (zrange h)) cols).
+Proof.
+  intros rd route w h Hr Hw Hh Hrd. induction cols as [|col cols IH]; intros Hin.
+  - reflexivity.
+  - cbn [p2p_columns flat_map].
+    assert (Hc : 0 <= col < w) by (apply Hin; left; reflexivity).
+    assert (Haddr : p2p_col_address SPINNAKER_RTR_P2P col = RTR_P2P + 128 * col).
+    { unfold p2p_col_address. change SPINNAKER_RTR_P2P with RTR_P2P. lia. }
+    rewrite Haddr. unfold p2p_col_words at 1.
+    rewrite (Hrd (128 * col) ((h + 7) / 8 * 4)) by lia.
+    rewrite (p2p_column_ok route h Hr Hh (S (Z.to_nat h)) col 0).
+    + cbn [bind]. rewrite IH by (intros; apply Hin; right; assumption). cbn [bind].
+      unfold column_truth. rewrite Z.sub_0_r. f_equal. f_equal. rewrite map_map.
+      apply map_ext. intros y. reflexivity.
+    + lia.
+    + lia.
+    + lia.
+    + intros _. split; [reflexivity|]. rewrite Z.sub_0_r.
+      replace (4 * ((h + 7) / 8)) with ((h + 7) / 8 * 4) by lia.
+      apply map_ext. intros j. f_equal. change (0 / 2) with 0. lia.
+Qed.
+
+Theorem p2p_roundtrip : forall rd route w h,
+  0 <= w < 256 -> 0 <= h < 256 -> routes_valid route -> reads_dims rd w h -> reads_p2p rd route ->
+  p2p_table rd = Ok (p2p_truth route w h).
+Proof.
+  intros rd route w h Hw Hh Hr Hd Hp. unfold p2p_table.
+  rewrite (read_dims_ok rd w h) by assumption. cbn [bind].
+  assert (Hwd : p2p_width (256 * w + h) = w).
+  { unfold p2p_width. change 255 with (Z.ones 8). rewrite land_ones_mod by lia.
+    rewrite Z.shiftr_div_pow2 by lia. change (2 ^ 8) with 256. lia. }
+  assert (Hht : p2p_height (256 * w + h) = h).
+  { unfold p2p_height. change 255 with (Z.ones 8). rewrite land_ones_mod by lia.
+    rewrite Z.shiftr_div_pow2 by lia. change (2 ^ 8) with 256. change (2 ^ 0) with 1. rewrite Z.div_1_r. lia. }
+  rewrite Hwd, Hht.
+  rewrite (p2p_columns_ok rd route w h) by (auto; intros c Hc; apply In_zrange in Hc; lia).
+  reflexivity.
+Qed.
+
+(* ------------------------------------------------------------------------------------------------ *)
+(* get_system_info                                                                                   *)
+
+Lemma In_p2p_truth : forall route w h c e,
+  In (c, e) (p2p_truth route w h) <-> (0 <= fst c < w /\ 0 <= snd c < h /\ e = route c).
+Proof.
+  intros route w h [x y] e. unfold p2p_truth. rewrite in_flat_map. cbn [fst snd]. split.
+  - intros (x' & Hx & Hin). apply in_map_iff in Hin. destruct Hin as (y' & Heq & Hy).
+    inversion Heq; subst. apply In_zrange in Hx. apply In_zrange in Hy. auto.
+  - intros (Hx & Hy & ->). exists x. split; [apply In_zrange; assumption|].
+    apply in_map_iff. exists y. split; [reflexivity|apply In_zrange; assumption].
+Qed.
+
+Lemma NoDup_app_intro : forall {A} (a b : list A),
+  NoDup a -> NoDup b -> (forall x, In x a -> In x b -> False) -> NoDup (a ++ b).
+Proof.
+  induction a as [|x a IH]; intros b Ha Hb Hd; [assumption|].
+  inversion Ha; subst. cbn [app]. constructor.
+  - rewrite in_app_iff. intros [H|H]; [contradiction|]. apply (Hd x); [left; reflexivity|assumption].
+  - apply IH; auto. intros y Hy1 Hy2. apply (Hd y); [right; assumption|assumption].
+Qed.
+
+Lemma NoDup_grid : forall (route : chip -> Z) (ys xs : list Z), NoDup xs -> NoDup ys ->
+  NoDup (map fst (flat_map (fun x => map (fun y => ((x, y), route (x, y))) ys) xs)).
+Proof.
+  intros route ys. induction xs as [|x xs IH]; intros Hx Hy; [constructor|].
+  inversion Hx as [|? ? Hnotin Hx']; subst.
+  cbn [flat_map]. rewrite map_app. apply NoDup_app_intro.
+  - rewrite map_map. cbn [fst]. apply Injective_map_NoDup; [|assumption].
+    intros a b Hab. inversion Hab. reflexivity.
+  - apply IH; assumption.
+  - intros c Hin1 Hin2. rewrite map_map in Hin1. apply in_map_iff in Hin1. destruct Hin1 as (y & <- & _).
+    apply in_map_iff in Hin2. destruct Hin2 as ([c' e] & Heq & Hin). cbn [fst] in Heq. subst c'.
+    apply in_flat_map in Hin. destruct Hin as (x' & Hx'' & Hin).
+    apply in_map_iff in Hin. destruct Hin as (y' & Heq & _). inversion Heq; subst. contradiction.
+Qed.
+
+Lemma NoDup_zrange : forall n, NoDup (zrange n).
+Proof.
+  intros. unfold zrange. apply Injective_map_NoDup; [|apply seq_NoDup].
+  intros a b Hab. lia.
+Qed.
+
+Lemma NoDup_p2p_truth : forall route w h, NoDup (map fst (p2p_truth route w h)).
+Proof. intros. unfold p2p_truth. apply NoDup_grid; apply NoDup_zrange. Qed.
+
+Lemma zmax_fold_ge : forall l a, a <= fold_left Z.max l a /\ (forall x, In x l -> x <= fold_left Z.max l a)
+                                 /\ (fold_left Z.max l a = a \/ In (fold_left Z.max l a) l).
+Proof.
+  induction l as [|b l IH]; intros a; cbn [fold_left].
+  - split; [lia|]. split; [intros x []|]. left. reflexivity.
+  - destruct (IH (Z.max a b)) as (H1 & H2 & H3). split; [lia|]. split.
+    + intros x [<-|Hx]; [lia|]. apply H2. assumption.
+    + destruct H3 as [H3|H3].
+      * destruct (Z.max_spec a b) as [[_ Hm]|[_ Hm]]; rewrite Hm in *.
+        -- right. left. symmetry. assumption.
+        -- left. assumption.
+      * right. right. assumption.
+Qed.
+
+Lemma zmax_list_spec : forall l, l <> [] ->
+  exists m, zmax_list l = Some m /\ In m l /\ forall x, In x l -> x <= m.
+Proof.
+  intros [|a l] Hne; [contradiction|]. cbn [zmax_list].
+  destruct (zmax_fold_ge l a) as (H1 & H2 & H3).
+  exists (fold_left Z.max l a). split; [reflexivity|]. split.
+  - destruct H3 as [->|H3]; [left; reflexivity|right; assumption].
+  - intros x [<-|Hx]; auto.
+Qed.
+
+Lemma probe_chips_ok : forall answers, answers_valid answers -> forall tbl,
+  probe_chips (info_of_machine answers) tbl =
+  Ok (flat_map (fun ce => if snd ce =? NO_ROUTE then []
+                          else match answers (fst ce) with
+                               | Some cs => [(fst ce, truth_info cs)]
+                               | None => []
+                               end) tbl).
+Proof.
+  intros answers Hv. induction tbl as [|[c e] tbl IH]; [reflexivity|].
+  cbn [probe_chips flat_map fst snd]. change P2PTableEntry_none with NO_ROUTE.
+  destruct (e =? NO_ROUTE); [exact IH|].
+  unfold info_of_machine at 1. destruct (answers c) as [cs|] eqn:Ea; cbn [option_map].
+  - rewrite chip_info_roundtrip by (eapply Hv; eassumption). cbn [bind]. rewrite IH. reflexivity.
+  - exact IH.
+Qed.
+
+Lemma In_routed : forall route w h c,
+  In c (map fst (routed (p2p_truth route w h))) <-> has_route route w h c.
+Proof.
+  intros route w h c. unfold routed, has_route. rewrite in_map_iff. split.
+  - intros ([c' e] & <- & Hin). apply filter_In in Hin. destruct Hin as [Hin Hne].
+    apply In_p2p_truth in Hin. cbn [fst snd] in *. destruct Hin as (Hx & Hy & ->).
+    change P2PTableEntry_none with NO_ROUTE in Hne. split; [assumption|]. split; [assumption|].
+    intros Heq. rewrite Heq, Z.eqb_refl in Hne. discriminate.
+  - intros (Hx & Hy & Hne). exists (c, route c). split; [reflexivity|]. apply filter_In. split.
+    + apply In_p2p_truth. auto.
+    + cbn [snd]. change P2PTableEntry_none with NO_ROUTE. apply Z.eqb_neq in Hne. rewrite Hne. reflexivity.
+Qed.
+
+Theorem system_info_exact : forall rd route answers w h,
+  0 <= w < 256 -> 0 <= h < 256 -> routes_valid route -> reads_dims rd w h -> reads_p2p rd route ->
+  answers_valid answers -> (exists c, has_route route w h c) ->
+  exists si, system_info rd (info_of_machine answers) = Ok si /\
+    si_chips si = live_chips route answers w h /\
+    (forall c, has_route route w h c -> fst c < si_width si /\ snd c < si_height si) /\
+    (exists c, has_route route w h c /\ si_width si = fst c + 1) /\
+    (exists c, has_route route w h c /\ si_height si = snd c + 1).
+Proof.
+  intros rd route answers w h Hw Hh Hr Hd Hp Hv [c0 Hc0].
+  unfold system_info. rewrite (p2p_roundtrip rd route w h) by assumption. cbn [bind].
+  set (R := routed (p2p_truth route w h)).
+  assert (HR : map fst R <> []).
+  { intros Hnil. apply In_routed in Hc0. fold R in Hc0. rewrite Hnil in Hc0. contradiction. }
+  assert (HRx : map (fun ce : Z * Z * Z => fst (fst ce)) R <> []).
+  { intros Hnil. apply HR. destruct R; [reflexivity|discriminate]. }
+  assert (HRy : map (fun ce : Z * Z * Z => snd (fst ce)) R <> []).
+  { intros Hnil. apply HR. destruct R; [reflexivity|discriminate]. }
+  destruct (zmax_list_spec _ HRx) as (mx & Emx & Hinx & Hmaxx).
+  destruct (zmax_list_spec _ HRy) as (my & Emy & Hiny & Hmaxy).
+  rewrite Emx, Emy. rewrite probe_chips_ok by assumption. cbn [bind].
+  eexists. split; [reflexivity|]. cbn [si_chips si_width si_height]. split; [reflexivity|]. split; [|split].
+  - intros c Hc. apply In_routed in Hc. fold R in Hc. apply in_map_iff in Hc. destruct Hc as (ce & <- & Hin).
+    split.
+    + assert (fst (fst ce) <= mx) by (apply Hmaxx; apply in_map_iff; exists ce; auto). lia.
+    + assert (snd (fst ce) <= my) by (apply Hmaxy; apply in_map_iff; exists ce; auto). lia.
+  - apply in_map_iff in Hinx. destruct Hinx as (ce & <- & Hin). exists (fst ce). split; [|reflexivity].
+    apply In_routed. fold R. apply in_map. assumption.
+  - apply in_map_iff in Hiny. destruct Hiny as (ce & <- & Hin). exists (fst ce). split; [|reflexivity].
+    apply In_routed. fold R. apply in_map. assumption.
+Qed.
+
+(* what is reported, chip by chip *)
+Lemma In_live_chips : forall route answers w h c ci,
+  In (c, ci) (live_chips route answers w h) <->
+  (has_route route w h c /\ exists cs, answers c = Some cs /\ ci = truth_info cs).
+Proof.
+  intros route answers w h c ci. unfold live_chips. rewrite in_flat_map. split.
+  - intros ([c' e] & Hin & Hc). cbn [fst snd] in Hc. apply In_p2p_truth in Hin. destruct Hin as (Hx & Hy & ->).
+    destruct (route c' =? NO_ROUTE) eqn:E; [contradiction|]. apply Z.eqb_neq in E.
+    destruct (answers c') as [cs|] eqn:Ea; [|contradiction]. destruct Hc as [Hc|[]]. inversion Hc; subst.
+    split; [unfold has_route; auto|]. exists cs. auto.
+  - intros ((Hx & Hy & Hne) & cs & Ea & ->). exists (c, route c). split; [apply In_p2p_truth; auto|].
+    cbn [fst snd]. apply Z.eqb_neq in Hne. rewrite Hne, Ea. left. reflexivity.
+Qed.
+
+Lemma NoDup_flat_map_keys : forall {A B} (f : chip * A -> list (chip * B)) (l : list (chip * A)),
+  (forall ce x, In x (f ce) -> fst x = fst ce) -> (forall ce, (length (f ce) <= 1)%nat) ->
+  NoDup (map fst l) -> NoDup (map fst (flat_map f l)).
+Proof.
+  intros A B f l Hk Hlen. induction l as [|ce l IH]; intros Hnd; [constructor|].
+  cbn [flat_map]. rewrite map_app. inversion Hnd as [|? ? Hnotin Hnd']; subst. apply NoDup_app_intro.
+  - specialize (Hlen ce). destruct (f ce) as [|x [|y r]]; cbn [map]; [constructor|repeat constructor; intros []|simpl in Hlen; lia].
+  - apply IH. assumption.
+  - intros k Hin1 Hin2. apply in_map_iff in Hin1. destruct Hin1 as (x & <- & Hx).
+    apply in_map_iff in Hin2. destruct Hin2 as (y & Heq & Hy). apply in_flat_map in Hy.
+    destruct Hy as (ce' & Hce' & Hy). apply Hnotin. rewrite <- (Hk ce x Hx), <- Heq, (Hk ce' y Hy).
+    apply in_map. assumption.
+Qed.
+
+Lemma NoDup_live_chips : forall route answers w h, NoDup (map fst (live_chips route answers w h)).
+Proof.
+  intros. unfold live_chips. apply NoDup_flat_map_keys.
+  - intros ce x Hx. destruct (snd ce =? NO_ROUTE); [contradiction|].
+    destruct (answers (fst ce)); [|contradiction]. destruct Hx as [<-|[]]. reflexivity.
+  - intros ce. destruct (snd ce =? NO_ROUTE); [simpl; lia|]. destruct (answers (fst ce)); simpl; lia.
+  - apply NoDup_p2p_truth.
+Qed.
